@@ -230,6 +230,16 @@ Definition p_error_path_outcome (path : string * bool * nat) (v : tokval) : outc
   | _, _ => ParserError cls
   end.
 
+(* the path of p_error taken for an unexpected TOKEN (the one that formats the token's value) *)
+Definition p_error_token_path : option (string * bool * nat) :=
+  find (fun p => snd (fst p)) p_error_paths.
+
+Definition p_error_int_outcome (z : Z) : outcome unit :=
+  match p_error_token_path with
+  | Some path => p_error_path_outcome path (TInt z)
+  | None => ParserError "GrammarError"
+  end.
+
 (* p_array_type (parser.py:541): the token text is "{0}[{1}]".format(element, capacity) *)
 Definition array_type_token (cap : Z) : outcome unit :=
   if array_type_formats_cap then str_int cap else Ok tt.
@@ -305,11 +315,16 @@ Fixpoint no_empty_enum (t : ty) : bool :=
   | _ => true
   end.
 
-(* format_int_value on every integer constant of the proto (c, go and py alike) *)
+(* format_int_value (c, go and py alike): str of the int; when guarded, a ValueError becomes a
+   RendererError, which _main.py reports *)
+Definition render_int (z : Z) : outcome unit :=
+  if format_int_value_guarded then py_catch_value_error (str_int z) "RendererError" else str_int z.
+
+(* ... on every integer constant of the proto *)
 Fixpoint render_ints (zs : list Z) : outcome unit :=
   match zs with
   | [] => Ok tt
-  | z :: r => bind (str_int z) (fun _ => render_ints r)
+  | z :: r => bind (render_int z) (fun _ => render_ints r)
   end.
 
 Definition ints_small (zs : list Z) : bool :=
@@ -368,12 +383,15 @@ Definition utf8_valid (s : list Z) : bool := utf8_valid_fuel (length s) s.
 
 (* Parser.parse: open(filepath).read() *)
 Definition read_source (bytes : list Z) : outcome unit :=
-  if utf8_valid bytes then Ok tt else Crash UnicodeDecodeError.
+  if utf8_valid bytes then Ok tt
+  else if parse_catches_decode_error then ParserError "LexerError" else Crash UnicodeDecodeError.
 
 (* p_import -> _check_parsing_file -> os.path.samefile(path): ValueError on an embedded NUL
    (any other unusable path is an OSError, which _main.py reports) *)
 Definition import_path (path : list ascii) : outcome unit :=
-  if existsb (fun c => Ascii.eqb c (ascii_of_nat 0)) path then Crash ValueError else Ok tt.
+  if existsb (fun c => Ascii.eqb c (ascii_of_nat 0)) path
+  then (if import_path_guarded then ParserError "GrammarError" else Crash ValueError)
+  else Ok tt.
 
 (* ====================================================================================== *)
 (* 10. whole token rules, and comparison helpers for the T2 case files                     *)
